@@ -35,6 +35,8 @@ import (
 //	validate;engine=<e>;sqlite=<path>;host=<h>;port=<n>;user=<u>;dbname=<d>;prepared=<0|1>;ppath=<0|1>;stat=<file|dir|missing|notdir|toolong>
 //	validate;nil
 //	    obs: OK | ERR <class>
+//	docdefault;F:<dotted.key>=<value>      (one per key of config.example.yaml: the DOCUMENTED default)
+//	    obs: <key>=<default of the default struct> | <key>=<absent>
 //
 // Every load case runs in a FRESH SUBPROCESS (viper and pflag state are process-global): the harness binary
 // re-executes itself as `harness c20child <dir> [-C file]` with exactly the environment of the case.
@@ -247,7 +249,7 @@ func c20Parse(input string) (head string, items []c20Item) {
 			continue
 		}
 		kind := ""
-		if len(t) > 2 && t[1] == ':' && head == "load" {
+		if len(t) > 2 && t[1] == ':' && head != "validate" {
 			kind, t = t[:1], t[2:]
 		}
 		name, val, _ := strings.Cut(t, "=")
@@ -602,6 +604,10 @@ func runC20(c *Ctx) error {
 			add("example-file", "load;"+strings.Join(ex, ";"))
 			add("example-file+env", "load;E:BHS_HTTP_PORT=9999;E:BHS_P2P_BAN_DURATION=2h0m0s;"+strings.Join(ex, ";"))
 		}
+		// the documented defaults: what config.example.yaml says about each key
+		for _, it := range c20ExampleItems(types) {
+			add("documented-default", "docdefault;"+it)
+		}
 		// several keys at once from random sources
 		for i, n := 0, c.Pick(24, 600); i < n; i++ {
 			m := 2 + c.Rng.Intn(6)
@@ -699,6 +705,16 @@ func runC20(c *Ctx) error {
 			}(i)
 		case "validate":
 			obs[i] = c20Validate(dir, items)
+		case "docdefault":
+			obs[i] = "BAD-INPUT"
+			if len(items) > 0 {
+				obs[i] = items[0].name + "=<absent>"
+				for _, k := range keys {
+					if k.Key == items[0].name {
+						obs[i] = k.Key + "=" + k.Default
+					}
+				}
+			}
 		default:
 			obs[i] = "BAD-INPUT"
 		}
